@@ -201,6 +201,7 @@ func runC17(c *Ctx) {
 	ruleGates(c, p, pairs, "C17.gates")
 	ruleBitFlags(c, p, pairs, "C17.flags")
 	ruleLossyDecode(c, p, pairs, "C17.lossy")
+	ruleNoInventedFields(c, p, pairs, "C17.invented")
 	ruleThresholds(c, p, "C17.thresholds")
 	ruleFreshTargets(c, p, "C17.fresh")
 	ruleScratchAlias(c, p, "C17.scratch")
@@ -1256,4 +1257,50 @@ func isPlainAppender(g *ssa.Function) bool {
 		}
 	}
 	return n == 1
+}
+
+// ---- C17.invented: a decoder fills fields only from what it read
+func ruleNoInventedFields(c *Ctx, p *core.Program, pairs []msgPair, rule string) {
+	c.R.Rule(rule, "decode(encode(m)) = m needs every field the decoder sets to come from the bytes: in the message decoders, no store to a field of the receiver takes its value from another field of the receiver - `else { c.Patch = c.ProtocolVersion }` for revisions that do not carry the field makes the decoded message differ from the encoded one in a field the encoding never had, and a relay re-encodes the invented value")
+	cfg := p.Cfg.Name
+	n := 0
+	for _, mp := range pairs {
+		dec := mp.dec
+		if dec == nil || dec.Blocks == nil || len(dec.Params) == 0 {
+			continue
+		}
+		recv := dec.Params[0]
+		n++
+		key := "decoder/" + mp.name
+		var bad *ssa.Store
+		for _, b := range dec.Blocks {
+			for _, in := range b.Instrs {
+				st, ok := in.(*ssa.Store)
+				if !ok {
+					continue
+				}
+				fa, ok := st.Addr.(*ssa.FieldAddr)
+				if !ok || fa.X != ssa.Value(recv) {
+					continue
+				}
+				dst := fa.Field
+				if core.DependsOn(st.Val, func(v ssa.Value) bool {
+					u, ok := v.(*ssa.UnOp)
+					if !ok || u.Op != token.MUL {
+						return false
+					}
+					sfa, ok := u.X.(*ssa.FieldAddr)
+					return ok && sfa.X == ssa.Value(recv) && sfa.Field != dst
+				}, false) {
+					bad = st
+				}
+			}
+		}
+		if bad != nil {
+			c.R.Bad(rule, key, cfg, p.Pos(bad.Pos()), "the decoder sets a field of the message from another field of the message instead of from the wire: at the revisions where this happens the decoded message is not the encoded one")
+		} else {
+			c.R.Ok(rule, key, cfg, p.Pos(dec.Pos()), "fields are set from reads and constants only")
+		}
+	}
+	c.R.Floor(rule, cfg, n, 9)
 }
